@@ -481,6 +481,9 @@ func (m *Dense) Exp(a Matrix) {
 	}
 
 	m.reuseAsNonZeroed(r, r)
+	if aU, _ := untransposeExtract(a); m != aU {
+		m.checkOverlapMatrix(aU)
+	}
 	if r == 1 {
 		m.mat.Data[0] = math.Exp(a.At(0, 0))
 		return
